@@ -133,6 +133,8 @@ type refServerOpts struct {
 	Seed      []byte // 24-byte PRNG seed announced in the inline seed frame
 	SplitSeed bool   // write the seed frame with a separate Write
 	Eph       *obfs4ref.Keypair
+	// SeedFrameMutate, if set, may damage / duplicate the inline seed frame on its way out.
+	SeedFrameMutate func(frame []byte) []byte
 }
 
 type refServerResult struct {
@@ -182,6 +184,9 @@ func refServerHandshake(c *harness.Ctx, conn net.Conn, ident obfs4ref.Identity, 
 	}
 	res.End = &refEnd{conn: conn, sess: obfs4ref.NewSession(seed[:], false)}
 	sf := res.End.sess.Frame(obfs4ref.PacketPrngSeed, o.Seed, 0)
+	if o.SeedFrameMutate != nil {
+		sf = o.SeedFrameMutate(sf)
+	}
 	if o.SplitSeed {
 		if _, err := conn.Write(resp); err != nil {
 			res.ReadErr = err
@@ -256,6 +261,26 @@ func (rs *refStream) start(c *harness.Ctx, e *refEnd) {
 				c.S.Sleep(msec(w.PauseMs))
 			}
 			var out bytes.Buffer
+			if w.Count > 1 {
+				// many minimal frames back to back: nothing but the frame counter
+				// distinguishes them
+				buf := make([]byte, w.Size)
+				for rep := 0; rep < w.Count; rep++ {
+					patFill(rs.dirOut, off, buf)
+					out.Write(e.sess.Frame(obfs4ref.PacketPayload, buf, 0))
+					off += int64(w.Size)
+					if out.Len() > 60000 || rep == w.Count-1 {
+						if _, err := e.conn.Write(out.Bytes()); err != nil {
+							if !*rs.ending {
+								c.Violate(rs.prop+"/ref-write-failed", "%s: wire write failed at frame %d: %v", rs.name, rep+1, err)
+							}
+							return
+						}
+						out.Reset()
+					}
+				}
+				continue
+			}
 			rem := w.Size
 			for rem > 0 {
 				n := rem
